@@ -5,7 +5,8 @@
 (* Events:                                                                               *)
 (*   deps(name, trans, direct, edges)  what dependencies() reports for memento           *)
 (*        function name: transitive set, direct set, graph edges <<src, target>>          *)
-(*   call(name, exc)                   a call of the automatically versioned name         *)
+(*   call(name, exc, passed)           a call of the automatically versioned name; passed: *)
+(*                                     memento functions handed to it as arguments         *)
 EXTENDS Naturals, Sequences, FiniteSets, TLC
 
 SeqToSet(s) == {s[i] : i \in 1..Len(s)}
@@ -39,8 +40,10 @@ DynReach(g, frontier, seen) ==
   ELSE LET n == CHOOSE x \in frontier : TRUE IN
        DynReach(g, (frontier \cup DynSucc(g, n)) \ (seen \cup {n}), seen \cup {n})
 \* some executed memento function calls, dynamically, a memento function outside its static closure
-Undeclared(g, n) == \E c \in DynReach(g, {n}, {}) : IsMem(g, c) /\
+\* (P: memento functions passed as arguments to the root call n -- those n itself may call)
+Undeclared(g, n, P) == \E c \in DynReach(g, {n}, {}) : IsMem(g, c) /\
                         \E t \in SeqToSet(Node(g, c).hidden) : IsMem(g, t) /\ t # c /\ t \notin Trans(g, c)
+                                                               /\ ~(c = n /\ t \in P)
 
 Clauses(st, e) ==
   CASE e.op = "deps" -> <<
@@ -53,9 +56,9 @@ Clauses(st, e) ==
              e.exc = "" => {<<e.edges[i][1], e.edges[i][2]>> : i \in 1..Len(e.edges)} = Edges(st.g, e.name)>> >>
     [] e.op = "call" -> <<
          <<"call_outside_static_closure_is_refused",
-             Undeclared(st.g, e.name) => e.exc = "UndeclaredDependencyError">>,
+             Undeclared(st.g, e.name, SeqToSet(e.passed)) => e.exc = "UndeclaredDependencyError">>,
          <<"call_inside_static_closure_is_allowed",
-             ~Undeclared(st.g, e.name) => e.exc = "">> >>
+             ~Undeclared(st.g, e.name, SeqToSet(e.passed)) => e.exc = "">> >>
     [] e.op = "proc" -> <<>>
     [] OTHER -> << <<"history_step_executed_without_machinery_error", FALSE>> >>
 
